@@ -96,15 +96,17 @@ def gparse(c, toks):
 
 
 def gdescribe(c):
-    kind, bc, n = c[0], c[1], c[2]
-    p = 3
+    kind, bc, npre = c[0], c[1], c[2]
+    pre = c[3:3 + npre]
+    n = c[3 + npre]
+    p = 4 + npre
     parts = []
     for t in range(n):
         ln = c[p]
         ops = c[p + 1:p + 1 + 2 * ln]
         parts.append("T%d: %s" % (t, ",".join("insert(%d)" % ops[i + 1] if ops[i] == 1 else "count(%d)" % ops[i + 1] if ops[i] == 3 else "traverse" for i in range(0, len(ops), 2))))
         p += 1 + 2 * ln
-    return "%s(%d buckets): " % (KINDS[kind], bc) + " || ".join(parts) + "  schedule=" + "".join(map(str, c[p + 1:p + 1 + 100]))
+    return "%s(%d buckets%s): " % (KINDS[kind], bc, (", %d keys pre-inserted" % npre) if npre else "") + " || ".join(parts) + "  schedule=" + "".join(map(str, c[p + 1:p + 1 + 100]))
 
 
 def gate_oracle(c, toks):
@@ -117,7 +119,10 @@ def gate_oracle(c, toks):
     ordered = kind in (2, 3)
     ops, left, size = gparse(c, toks)
     d = gdescribe(c)
+    pre = c[3:3 + c[2]]
     succ = {}
+    for k in pre:
+        succ.setdefault(k, []).append((-1, 1, k, 1, -2, -1, []))      # pre-inserted: a successful insert that completed before everything
     for o in ops:
         if o[1] == 1 and o[3] == 1:
             succ.setdefault(o[2], []).append(o)
@@ -159,7 +164,18 @@ def gen_gate(ctx, n):
         bc = rng.choice([1, 2, 8])
         T = rng.randint(2, 3)
         keys = rng.choice([[1, 2], [1, 9, 17], [3, 3 + 8, 3 + 16, 4], [0, 1, 2, 3, 4, 5, 6, 7, 8, 9, 10]])
-        c = [kind, bc, T]
+        longb = rng.random() < 0.3
+        if kind in (0, 1) and rng.random() < 0.35:
+            # doubling + equal split-order keys: the table (8 buckets) holds 32 keys, the next insert doubles it; the keys 9 and
+            # 9 + 2^63 share one split-order key (bit 63 is dropped) and the new bucket 9 is initialised during the run
+            bc = 8
+            TWIN = 9 - (1 << 63)
+            pre = [100 + 16 * j + r for j in range(8) for r in (0, 2, 3, 4)]
+            keys = [9, 9, TWIN, 7000 + rng.randrange(50) * 16, 25]
+            c = [kind, bc, len(pre)] + pre + [T]
+            longb = True
+        else:
+            c = [kind, bc, 0, T]
         for t in range(T):
             ln = rng.randint(1, 5 if T == 2 else 4)
             ops = []
@@ -170,7 +186,6 @@ def gen_gate(ctx, n):
         c.append(-1)
         sched = []
         L = rng.randint(40, 600)
-        longb = rng.random() < 0.3
         while len(sched) < L:
             sched += [rng.randrange(T)] * (rng.choice([1, 3, 10, 40, 120]) if longb else rng.randint(1, 12))
         cases.append(c + sched)
